@@ -134,6 +134,17 @@ theorem nbytes_roundtrip (H : Bytes → Nat) (P M : Nat) (data : List Bytes) (f 
     (hb : build H P M data = .ok f) : fromNBytes P M f.nBytes = .ok f :=
   Lemmas.nbytes_roundtrip H P M data f hb
 
+/-- `FromBytes(N(f), P, M, Bytes(f)) = f` for every built filter. -/
+theorem frombytes_roundtrip (H : Bytes → Nat) (P M : Nat) (data : List Bytes) (f : Filter)
+    (hb : build H P M data = .ok f) : fromBytes f.n P M f.bytes = .ok f := by
+  obtain ⟨hP, _, en, ep, em, _⟩ := Lemmas.build_spec H P M data f hb
+  unfold fromBytes Filter.bytes
+  rw [if_neg (by omega)]
+  cases f
+  simp only [] at en ep em ⊢
+  subst en ep em
+  rfl
+
 /-- hence the deserialised filter matches every element it was built from -/
 theorem roundtrip_no_false_negative (H : Bytes → Nat) (P M : Nat) (data : List Bytes) (f : Filter)
     (hb : build H P M data = .ok f) (d : Bytes) (hd : d ∈ data) :
